@@ -57,6 +57,12 @@ Definition out_edges (s : state) (x : obj) : list obj :=
         | KFold _ _ cs => ONode <$> cs
         | KBindLhs b => [OBind b]
         | KBindMain b lc => [OBind b; ONode lc]
+        | KExpert x =>
+            (* the ExpertNode holds its edges, each edge its child *)
+            match experts s !! x with
+            | Some ex => ONode <$> omap (fun e => ed_child <$> edges s !! e) (ex_children ex)
+            | None => []
+            end
         end
       end
   | OBind b =>
